@@ -74,6 +74,11 @@ def run(ctx):
                 for eps in ((0.1,) if quick and k % 4 else (0.1, 0.03)):
                     cases.append({"fn": "gen", "name": name, "args": G.enc_args({"tau": tau, "epsilon": eps}), "ensure_bounded": True,
                                   "return_scale": False, "chebyshev_basis": rng.random() < 0.5, "timeout": 300, "directed": "small tau sweep"})
+        # long evolution times (the series has to run past order tau before the fixed 0.5 rescaling bounds it)
+        for name in ("cos", "sin"):
+            for tau, eps in (((64.0, 0.1), (70.0, 0.01), (90.0, 0.05)) if quick else ((60.0, 0.1), (64.0, 0.1), (70.0, 0.01), (90.0, 0.05), (120.0, 0.1), (150.0, 1e-3))):
+                cases.append({"fn": "gen", "name": name, "args": G.enc_args({"tau": tau, "epsilon": eps}), "ensure_bounded": True,
+                              "return_scale": False, "chebyshev_basis": True, "timeout": 300, "directed": "long time"})
         # the object-returning path (return_coef=False hands back the Chebyshev series itself) of cos / sin / 1/x
         for name, a in (("invert", {"kappa": 3, "epsilon": 0.3}), ("invert", {"kappa": 2, "epsilon": 0.1}), ("cos", {"tau": 7.0, "epsilon": 0.1}),
                         ("sin", {"tau": 5.0, "epsilon": 0.01})):
